@@ -40,6 +40,7 @@ structure Env where
   peerDone : List Bool := []      -- per connection: the harness closed the client's / target's end (`tcl`)
   aborted : List Bool := []       -- per connection: the harness client aborted during a response write (`cx`)
   tls : List Bool := []           -- per connection: the harness client started a TLS handshake (`tls`)
+  h2 : List Bool := []            -- per connection: an HTTP/2 session was negotiated and used (`h2`)
 
 def getD {α} (l : List α) (k : Nat) (d : α) : α := (l[k]?).getD d
 
@@ -94,7 +95,11 @@ def catchUpWrite (s : Sys) (k : Nat) : Sys :=
 
 /-- Steps of the client of a MITM'd tunnel up to the serving loop, justified by `tls:k`. -/
 def catchUpTls (env : Env) (s : Sys) (k : Nat) : Sys :=
-  if getD env.tls k false then tryAll s [.h k (.peeked true), .h k (.handshakeEnd .h1)] else s
+  if getD env.h2 k false then
+    -- the HTTP/2 session: it stops by itself once `closing` is closed; otherwise only when a peer ended it
+    let s := tryAll s [.h k (.peeked true), .h k (.handshakeEnd .h2), .h k .h2Stop]
+    if getD env.peerDone k false then tryStep s (.h k .h2PeerEnd) else s
+  else if getD env.tls k false then tryAll s [.h k (.peeked true), .h k (.handshakeEnd .h1)] else s
 
 /-- One visible event on one candidate. -/
 def applyEv (env : Env) (s : Sys) (ev : List String) : Option Sys :=
@@ -146,6 +151,7 @@ def applyEv (env : Env) (s : Sys) (ev : List String) : Option Sys :=
   | ["tcl", _] => some s
   | ["cx", _] => some s
   | ["tls", _] => some s
+  | ["h2", _] => some s
   | ["panic"] =>
     let s := if s.cpc = .called then tryStep s .closeChan else s
     step s .closeChan2
@@ -248,6 +254,10 @@ def updEnv (env : Env) (ev : List String) : Env :=
     match k.toNat? with
     | some k => { env with tls := setPad env.tls k false true }
     | none => env
+  | ["h2", k] =>
+    match k.toNat? with
+    | some k => { env with h2 := setPad env.h2 k false true }
+    | none => env
   | ["resp", k, _] =>
     match k.toNat? with
     | some k => { env with resps := setPad env.resps k 0 (getD env.resps k 0 + 1) }
@@ -266,6 +276,7 @@ def accept : List String → Nat → Env → List Sys → String
       | ["tcl", _] => updEnv env ev
       | ["cx", _] => updEnv env ev
       | ["tls", _] => updEnv env ev
+      | ["h2", _] => updEnv env ev
       | _ => env
     let cands' := (expandAll cands).filterMap fun s => applyEv env1 s ev
     let env2 := match ev with
